@@ -13,6 +13,7 @@ pub mod prop_c08;
 pub mod prop_c08_scan;
 pub mod prop_c10;
 pub mod prop_c11;
+pub mod prop_c12;
 
 use framework::PropertyDef;
 
@@ -25,6 +26,7 @@ pub fn registry() -> Vec<PropertyDef> {
         prop_c08::def(),
         prop_c10::def(),
         prop_c11::def(),
+        prop_c12::def(),
     ]
 }
 
